@@ -8,7 +8,12 @@
    schedule" is "for every action list accepted by exec".
 
    Go code mirrored (handler.go, client.go):
-   * execLoop: takes event n off rx in arrival order and calls RunHandlers  (ADeliver)
+   * execLoop: takes event n off rx in arrival order and calls RunHandlers  (ADeliver).
+     Both branches of its select do this: the regular `case event = <-c.rx` and, after the
+     connection's context is cancelled, the loop that flushes what is still queued.
+     Cancellation itself is not modelled (no step ever needs a further arrival); what the
+     flush has to guarantee is that the loop stops only when nothing that arrived is left,
+     i.e. in DIdle (s_arrived s) — theorem dispatcher_progress says it can always get there.
    * RunHandlers: four calls of Caller.exec — bg "*", bg cmd, fg "*", fg cmd; the cmd
      calls are skipped for an echo                                      (phases 0..3)
    * exec: under RLock copy the selected handlers (ASnap: the selection is read from the
